@@ -93,6 +93,7 @@ type Res struct {
 	Obs       []string       `json:"obs,omitempty"`
 	Extra     map[string]int `json:"extra,omitempty"`
 	AllClosed bool           `json:"all_closed,omitempty"` // stress: every session closed, released and unlisted
+	NoCompare bool           `json:"no_compare,omitempty"` // the observation window was too short for the model\'s "eventually"
 	Ms        int64          `json:"ms"`
 }
 
@@ -333,6 +334,16 @@ func runE2E(k int, sc Scn, r *vh.Rand) (res Res) {
 		quiesce(c, ss, srv, l, time.Duration(20*sc.SleepMs)*time.Millisecond, 2*time.Second)
 		if lsnClosed {
 			reachable = false
+		}
+	}
+	// a client that calls back and finds the listener gone gives up after maxErrors failed
+	// connects (the model's "eventually"): give it the time before the final observation
+	if c != nil && lsnClosed && sc.Cbk && !clientClosed {
+		if !waitCh(c.Done(), 3*time.Second) {
+			res.NoCompare = true
+			res.Obs = append(res.Obs, "the client had not given up 3 s after the listener was closed (trace not compared)")
+		} else {
+			quiesce(c, ss, srv, l, time.Duration(20*sc.SleepMs)*time.Millisecond, 2*time.Second)
 		}
 	}
 	// ---- what the property promises, evaluated on the implementation
@@ -611,6 +622,17 @@ func gen(r *vh.Rand, tier string) []Scn {
 		if s.SleepMs == 0 {
 			s.SleepMs = 3
 		}
+		if s.Chm {
+			// an established channel-mode connection outlives its listener: the model's
+			// "reachable" does not cover that, such scenarios are oracle-only
+			for _, ph := range s.Phases {
+				for _, c := range ph {
+					if c == cLsnClose || c == cSrvClose {
+						s.Compare = false
+					}
+				}
+			}
+		}
 		out = append(out, s)
 	}
 	e := func(instant string, cpk, spk, chm, cbk bool, phases ...[]int) Scn {
@@ -636,6 +658,7 @@ func gen(r *vh.Rand, tier string) []Scn {
 	for i := 0; i < 6; i++ {
 		add(Scn{Kind: "noclient", Instant: "before-registration", Phases: [][]int{{cSrvClose}}, Compare: false})
 		add(Scn{Kind: "noclient", Instant: "before-registration", Phases: [][]int{{cSrvClose, cSrvClose, cLsnClose, cLsnClose}}, Compare: false})
+		add(Scn{Kind: "noclient", Instant: "before-registration", Phases: [][]int{{cLsnClose}, {cSrvClose}}, Compare: false})
 	}
 	// grid: every instant x every source x multiplicity 1, 2, 8
 	srcs := [][]int{{cClientClose}, {cServerClose}, {cCtxCancel}, {cRemove}, {cClientClose, cServerClose}, {cClientClose, cCtxCancel}}
@@ -940,7 +963,7 @@ func main() {
 			desc["panic_msg"] = res.PanicMsg
 		}
 		nontrivial := len(sc.Phases) > 0 || sc.Kind == "stress"
-		if sc.Kind == "e2e" && sc.Compare && len(res.Final) == 27 {
+		if sc.Kind == "e2e" && sc.Compare && !res.NoCompare && len(res.Final) == 27 {
 			term := fmt.Sprintf("CRun %s %s %s true %s %s %s %s %s", coqBool(sc.Cpk), coqBool(sc.Spk), coqBool(sc.Chm), coqBool(sc.Cbk),
 				phasesCoq(sc.Phases), coqBool(res.Panic), coqBool(res.Returned), vh.ZList64(res.Final))
 			out.Add(term, classOf(sc), nontrivial, desc)
